@@ -56,6 +56,77 @@ def summ_set_ansi_str(interp, func, args, kwargs):
     return None
 
 
+_SGR_ITE = {}
+_ITE_CACHE = {}
+
+
+def summ_slice_val(interp, func, args, kwargs):
+    """Contract SL (obligation group SL): _slice_val_to_idx(val, default) is Python's slice normalisation of
+    val against len(self._s).  The result is a fresh integer constrained by that equation, so a caller's
+    paths do not multiply with the callee's case split."""
+    self_, val = args[0], args[1]
+    default = args[2] if len(args) > 2 else kwargs['default']
+    if val is None:
+        return default
+    c = ctx()
+    n = sym.s_len(self_.attrs['_s'])
+    if not sym.is_z3(val) and not sym.is_z3(n):
+        return max(val + n, 0) if val < 0 else min(val, n)
+    key = ('sl', sym._lin(val), sym._lin(n))
+    ent = _ITE_CACHE.get(key)
+    if ent is None:
+        r = sym.int_const('idx!%d' % len(_ITE_CACHE))
+        v_, n_ = sym.Z(val), sym.Z(n)
+        eqn = sym.Z(r) == z3.If(v_ < 0, z3.If(v_ + n_ < 0, 0, v_ + n_), z3.If(v_ > n_, n_, v_))
+        ent = (r, eqn)
+        _ITE_CACHE[key] = ent
+    r, eqn = ent
+    c.assume(eqn)
+    c.assume(sym.i_cmp('>=', r, 0))
+    c.assume(sym.i_cmp('<=', r, n))
+    return r
+
+
+
+def _sgr_ite(interp, which, code):
+    """spec.sgr_group / spec.sgr_kind on a symbolic code: an ITE chain read from the spec table itself"""
+    table = interp.p.modules['spec'].native.SGR
+    if not sym.is_z3(code):
+        e = table.get(code)
+        return (-1 if which == 0 else 0) if e is None else e[which]
+    ck = (which, sym._lin(code))
+    if ck in _SGR_ITE:
+        return _SGR_ITE[ck]
+    x = sym.Z(code)
+    runs = []
+    for cd in sorted(table):
+        v = table[cd][which]
+        if runs and runs[-1][1] == cd - 1 and runs[-1][2] == v:
+            runs[-1][1] = cd
+        else:
+            runs.append([cd, cd, v])
+    e = z3.IntVal(-1 if which == 0 else 0)
+    for lo, hi, v in reversed(runs):
+        cond = (x == lo) if lo == hi else z3.And(x >= lo, x <= hi)
+        e = z3.If(cond, z3.IntVal(v), e)
+    _SGR_ITE[ck] = sym.atom(e)
+    return _SGR_ITE[ck]
+
+
+def summ_sgr_group(interp, func, args, kwargs):
+    return _sgr_ite(interp, 0, args[0])
+
+
+def summ_sgr_kind(interp, func, args, kwargs):
+    return _sgr_ite(interp, 1, args[0])
+
+
+MODULAR = {
+    'SL': {'AnsiString._slice_val_to_idx': summ_slice_val},
+}
+
 DEFAULT = {
+    'sgr_group': summ_sgr_group,
+    'sgr_kind': summ_sgr_kind,
     'AnsiString.set_ansi_str': summ_set_ansi_str,
 }
